@@ -144,3 +144,40 @@ Print Assumptions C17_refuted_1.
 Theorem C17_holds : forall c, C17.wf c = true -> C17.kf c = 0 -> C17.spec c (C17.model c) = true.
 Proof. exact C17_holds_proof. Qed.
 Print Assumptions C17_holds.
+
+(* ---- the regenerated constants this property's predicate / model rest on, against literals.
+   Gen/Consts.v is rewritten from the source of /repo on every run, so without this theorem an
+   edit of one of these constants would move model, predicate and code together and nothing
+   would be reported.  Used by: the documented method choice Compress.doc_gen (C17.spec) reads the extension table; C17.wf and Model/StageLine.v / StageWild.v use the chmod masks and the vdb type codes.
+   "frozen" = no manual text gives the value; it is the value of the reviewed tree. *)
+From LC Require Import Gen.Consts Proofs.C17PinsP.
+Local Open Scope string_scope.
+Theorem C17_constants_pinned :
+  (* frozen from the reviewed tree (the manual: "the filename extension determines the file-compression mode", no list) *)
+  D_GzipExtensions = bs ".tar.gz .tgz" /\
+  (* frozen from the reviewed tree *)
+  D_BzipExtensions = bs ".tar.bz2 .tbz2" /\
+  (* frozen from the reviewed tree -- NO leading dot and no .txz, unlike the two rows above: see NOTES-r5.md "XzExtensions" (out.txz is not recognised, outtar.xz is) *)
+  D_XzExtensions = bs "tar.xz" /\
+  (* frozen from the reviewed tree *)
+  D_NoCompressExtension = bs ".tar" /\
+  (* chmod(1): u = 04700, g = 02070, o = 01007, a = 07777 (keys are the bytes u g o a) *)
+  S_groupMasks = [(117, 2496); (103, 1080); (111, 519); (97, 4095)]%N /\
+  (* chmod(1): r = 0444, w = 0222, x = 0111, s = 06000, t = 01000 *)
+  S_settingMasks = [(114, 292); (119, 146); (120, 73); (115, 3072); (116, 512)]%N /\
+  (* 07777 *)
+  V_PermBits = 4095%N /\
+  (* frozen from the reviewed tree (portage/vdb/contents.go iota block) *)
+  V_FileType_none = 0%N /\
+  (* frozen from the reviewed tree *)
+  V_FileType_dir = 1%N /\
+  (* frozen from the reviewed tree *)
+  V_FileType_file = 2%N /\
+  (* frozen from the reviewed tree *)
+  V_FileType_symlink = 3%N /\
+  (* frozen from the reviewed tree *)
+  V_FileType_hardlink = 4%N /\
+  (* frozen from the reviewed tree *)
+  V_FileType_device = 5%N.
+Proof. exact c17_constants_pinned. Qed.
+Print Assumptions C17_constants_pinned.
